@@ -84,7 +84,7 @@ def write_replay(pid, R, f, reg, changed_items):
     return path
 
 
-def check_property(pid, tier='quick', seed=0, out=sys.stdout):
+def check_property(pid, tier='quick', seed=0, out=sys.stdout, quiet_summary=False):
     t0 = time.time()
     names = units_for(pid)
     if not names:
@@ -253,6 +253,19 @@ def run_canary(name, fn_name, tier):
 def replay(path, out=sys.stdout):
     with open(path) as fh:
         doc = json.load(fh)
+    if doc.get('engine') == 'kani':
+        from .kani import run_kani_unit
+        K = run_kani_unit(doc['unit'], 'thorough')
+        h = doc['obligation'].split(':')[-1]
+        if K['status'] == 'undecided':
+            print(f'UNDECIDED unit={doc["unit"]} reason={K["reason"]}', file=out)
+            return 2
+        if K['harnesses'].get(h, {}).get('status') == 'fail':
+            print(f'harness {doc["obligation"]} still fails: {K["harnesses"][h]["failed_checks"]}', file=out)
+            print(f'VIOLATION property={doc["property"]} replay={path}', file=out)
+            return 1
+        print(f'harness {doc["obligation"]} verifies on the current tree', file=out)
+        return 0
     R = run_unit(doc['unit'], 'thorough')
     if R.status == 'undecided':
         print(f'UNDECIDED unit={doc["unit"]} reason={R.reason}', file=out)
@@ -283,6 +296,12 @@ def main(argv):
         rc = 0
         for n in argv[1:] or all_units():
             rc |= vxrun.register(n)
+        return rc
+    if argv[0] == '--register-kani':
+        from .kani import register_kani
+        rc = 0
+        for n in argv[1:]:
+            rc |= register_kani(n)
         return rc
     if argv[0] == '--emit':
         from .assemble import assemble
